@@ -1066,7 +1066,9 @@ class SVG:
         self._update_etree()
 
         for el in self.xpath("//processing-instruction()"):
-            el.getparent().remove(el)
+            parent = el.getparent()
+            if parent is not None:  # None: a sibling of the root element
+                parent.remove(el)
 
         return self
 
